@@ -95,6 +95,15 @@ Theorem merge_sort_spec : forall d os p d',
 Proof. exact merge_sort_spec_l. Qed.
 Print Assumptions merge_sort_spec.
 
+(* ... and that pins the result completely: ANY rearrangement of the (key, position) pairs that is sorted by key and
+   keeps equal keys in their original order is the model's, so whatever stable algorithm the code uses must agree *)
+Theorem merge_sort_unique : forall keys s,
+  StronglySorted (le_pair dy_leb) s ->
+  (forall k, sel dy_leb k s = sel dy_leb k (enumerate keys)) ->
+  s = isort dy_leb (enumerate keys) /\ map snd s = stable_argsort dy_leb keys.
+Proof. exact merge_sort_unique_l. Qed.
+Print Assumptions merge_sort_unique.
+
 (* difference(index_by): the pairing.  For key columns a (self) and b (other) the common keys are
    exactly the keys occurring in both, each once; a common key is paired with its FIRST occurrence in
    either column *)
@@ -111,21 +120,75 @@ Theorem difference_spec : forall (K : Type) (eqb : K -> K -> bool),
 Proof. exact difference_spec_l. Qed.
 Print Assumptions difference_spec.
 
+(* ... instantiated for the key cells the model (and the correspondence) uses: index tuples of doubles compared by
+   bit pattern and texts compared literally.  For difference(index_by = p :: ps): row sidx[k] of self and row
+   oidx[k] of other carry the same index tuple cm[k]; cm = the tuples in both datasets, each once, first occurrences *)
+Theorem difference_rows_paired : forall d o p ps sidx oidx,
+  diff_sel d o (p :: ps) = Some (sidx, oidx) ->
+  exists ks ko cm,
+    index_keys d (p :: ps) = Some ks /\ index_keys o (p :: ps) = Some ko /\
+    NoDup cm /\ (forall t, In t cm <-> In t ks /\ In t ko) /\
+    sidx = map (fun t => first_index tuple_eqb t ks) cm /\
+    oidx = map (fun t => first_index tuple_eqb t ko) cm /\
+    (forall t, In t cm ->
+       nth (first_index tuple_eqb t ks) ks [] = t /\ first_index tuple_eqb t ks < length ks /\
+       nth (first_index tuple_eqb t ko) ko [] = t /\ first_index tuple_eqb t ko < length ko /\
+       (forall k, k < first_index tuple_eqb t ks -> nth k ks [] <> t) /\
+       (forall k, k < first_index tuple_eqb t ko -> nth k ko [] <> t)).
+Proof. exact diff_sel_spec. Qed.
+Print Assumptions difference_rows_paired.
+
+Theorem key_cells_leibniz : forall a b, tuple_eqb a b = true <-> a = b.
+Proof. exact tuple_eqb_eq. Qed.
+Print Assumptions key_cells_leibniz.
+
 (* ... and the result of difference is again a rectangular, row-aligned table *)
 Theorem difference_rect : forall d o ps d', Good d -> difference d o ps = Some d' -> Good d'.
 Proof. exact difference_good. Qed.
 Print Assumptions difference_rect.
 
-(* an object shared by several fields / references keeps ONE identity under subset and sort, and its
-   rows are selected exactly once (partial: the memo walk of the code is not modelled; this is the
-   store-level statement the walk has to implement, the identity structure of the real objects is
-   compared in the correspondence) *)
-Theorem shared_reference_once_partial : forall ix d o,
+(* The memo.  `subset_walk` is Dataset.subset / the sort of merge_with as the code performs them: field by field,
+   every object looked up in the memo (old identity -> new object) first, otherwise its references walked through
+   the same memo, the new object built and entered.  For every dataset (so for every state any operation list
+   reaches) and every index list, if the walk terminates (no reference cycle):
+   - every field keeps its name and names the memo image of its old object;
+   - the memo is a function and one-to-one: what named ONE object before (two fields, a field and another field's
+     .other / .time / .ref_pos, ...) names one object afterwards, different objects stay different;
+   - every old object has exactly one new object (identities in the new store are unique) whose rows are the
+     selected rows - selected once: `take_obj ix`, the same transformation as the specification `take_all` -
+     and whose references are the memo images of the old references. *)
+Theorem shared_reference_once : forall d ix d',
+  subset_walk d ix = Some d' ->
+  num_obs d' = length ix /\ rowids d' = take 0%Z ix (rowids d) /\
+  exists memo : list (nat * nat),
+    Forall2 (fun pf qf => fst qf = fst pf /\ In (snd pf, snd qf) memo) (fields d) (fields d') /\
+    (forall o n1 n2, In (o, n1) memo -> In (o, n2) memo -> n1 = n2) /\
+    (forall o1 o2 n, In (o1, n) memo -> In (o2, n) memo -> o1 = o2) /\
+    NoDup (map fst (store d')) /\
+    (forall o n, In (o, n) memo ->
+       exists ob rs, lookup o (store d) = Some ob /\
+                     lookup n (store d') = Some (set_refs (take_obj ix ob) rs) /\
+                     Forall2 (fun ar r => fst r = fst ar /\ In (snd ar, snd r) memo) (orefs ob) rs).
+Proof. exact shared_reference_once_l. Qed.
+Print Assumptions shared_reference_once.
+
+(* the store-level reading used by `step`: a reference resolves to the same identity, rows selected once *)
+Theorem shared_reference_store_level : forall ix d o,
   lookup o (store (take_all ix d)) = option_map (take_obj ix) (lookup o (store d)) /\
   fields (take_all ix d) = fields d /\
   (forall ob, orefs (take_obj ix ob) = orefs ob /\ orows (take_obj ix ob) = take fillcell_d ix (orows ob)).
 Proof. exact shared_reference_once_partial_l. Qed.
-Print Assumptions shared_reference_once_partial.
+Print Assumptions shared_reference_store_level.
+
+(* open finding c09_sharing_lost_on_empty_extend in the walk model: extend with a zero-row dataset that has `site`
+   but not `sat`; with the early return of append_empty(0) site.other and the field sat are two objects afterwards,
+   with the memo consulted they stay one *)
+Theorem c09_sharing_lost_refuted :
+  ref_is_field w_sharing "site" "other" "sat" = true /\
+  (exists d, extend_empty_walk true w_sharing ["site"] = Some d /\ ref_is_field d "site" "other" "sat" = false) /\
+  (exists d, extend_empty_walk false w_sharing ["site"] = Some d /\ ref_is_field d "site" "other" "sat" = true).
+Proof. exact sharing_lost_refuted. Qed.
+Print Assumptions c09_sharing_lost_refuted.
 
 (* the known deviations really break the property (and the specification does not, on the same input) *)
 Theorem c09_subset_sum_refuted :
@@ -149,6 +212,11 @@ Theorem c09_unstable_sort_refuted :
   w_numpy_perm <> stable_argsort dy_leb w_keys.
 Proof. exact unstable_sort_refuted. Qed.
 Print Assumptions c09_unstable_sort_refuted.
+
+(* non-vacuity of shared_reference_once: the walk terminates and keeps site.other = sat *)
+Example walk_runs :
+  exists d, subset_walk w_sharing [1; 0; 1] = Some d /\ num_obs d = 3 /\ ref_is_field d "site" "other" "sat" = true.
+Proof. eexists. vm_compute. repeat split. Qed.
 
 (* non-vacuity: a history with all kinds of steps runs in the model *)
 Example history_runs :
